@@ -46,7 +46,8 @@ def main(tier):
     for (lab, kind, p_) in alpha.interaction_programs(tier):
         if kind in ("task", "task0"):
             js.append({"program": p_, "families": ["task", "resource", "constraint"], "family": "interaction:" + lab.split("/")[2]})
+    js += common.staged(js, stride=5 if tier == "quick" else 1, kinds=("solve", "init"))
     for j in js:
         # "binds only when the tasks concerned are scheduled": also the converse direction on every program
         j["directions"] = "SK"
-    return common.run_space_check("C03", tier, js, RULE, ASSUME, budget_s=110 if tier == "quick" else 1500)
+    return common.run_space_check("C03", tier, js, RULE, ASSUME, budget_s=480 if tier == "quick" else 3000)
